@@ -11,6 +11,7 @@ and value lengths, with or without payload — the only requirement is that no o
 means in the property.
 -/
 import Schc.Proofs.CoapSemantic
+import Schc.Proofs.UnparseStack
 
 namespace Schc
 
@@ -68,5 +69,73 @@ example :
         let u ← coapUnparse .semantic (pairs hm.fields)
         let hs ← coapParse .syntactic (fuelFor b) b
         pure (u == pairs hs.fields)) = .ok false := by decide +kernel
+
+/-! ### through `PacketParser.unparse` and `decompress(…, unparser=…)` -/
+
+/-- the stack level: on IP / UDP / CoAP with the options in semantic mode the stack parser accepts what the syntactic
+    stack accepts and cuts the same payload, and `PacketParser.unparse` — which hands each header parser the fields
+    whose id contains its name and lets the rest (the payload) follow — turns its fields back into the syntactic field
+    sequence. Every option number (named or `OPTION_UNKNOWN(n)`), any number of options. -/
+theorem C19_stack_unparse {ip : ParserInst} {name : String} {layout : Layout} (hip : IsIp ip name layout)
+    (udp : ParserInst) (hu : udp.cls = "UDPParser") (hunp : udp.predict = false)
+    (cs : ParserInst) (hc : cs.cls = "CoAPParser") (hsem : cs.coapMode = .semantic)
+    (fuel : Nat) (b : ABuf) (hside : b.side = .left) (h1 h2 hs : Header)
+    (hp1 : runParser fuel ip b = .ok h1) (hp2 : runParser fuel udp (b.from_ h1.length) = .ok h2)
+    (hp3 : coapParse .syntactic fuel ((b.from_ h1.length).from_ h2.length) = .ok hs) (hwf : WfNibbles (pairs hs.fields)) :
+    ∃ hm : Header,
+      packetParse fuel [ip, udp, cs] b =
+        .ok ⟨.dw, h1.fields ++ h2.fields ++ hm.fields, ((b.from_ h1.length).from_ h2.length).from_ hs.length, b⟩ ∧
+      ∀ pl : ABuf, packetUnparse [ip, udp, cs] (pairs (h1.fields ++ h2.fields ++ hm.fields) ++ [(Gen.payloadId, pl)]) =
+        .ok (pairs (h1.fields ++ h2.fields ++ hs.fields) ++ [(Gen.payloadId, pl)]) :=
+  unparse_semantic_stack hip udp hu hunp cs hc hsem fuel b hside h1 h2 hs hp1 hp2 hp3 hwf
+
+/-- … so a packet parsed by the semantic stack, compressed with any rule of lossless pairings that fit its (semantic)
+    fields, and decompressed with the parser as unparser, is the original packet, bit for bit -/
+theorem C19_stack_roundtrip {ip : ParserInst} {name : String} {layout : Layout} (hip : IsIp ip name layout) (hipm : ip.coapMode = .syntactic)
+    (udp : ParserInst) (hu : udp.cls = "UDPParser") (hunp : udp.predict = false) (hum : udp.coapMode = .syntactic)
+    (cs : ParserInst) (hc : cs.cls = "CoAPParser") (hsem : cs.coapMode = .semantic)
+    (fuel : Nat) (b : ABuf) (hside : b.side = .left) (h1 h2 hs : Header)
+    (hp1 : runParser fuel ip b = .ok h1) (hp2 : runParser fuel udp (b.from_ h1.length) = .ok h2)
+    (hp3 : coapParse .syntactic fuel ((b.from_ h1.length).from_ h2.length) = .ok hs) (hwf : WfNibbles (pairs hs.fields))
+    (d : Dir) (r : Rule) (hn : r.nature = .compression) (hdir : ∀ rf ∈ r.fields, Spec.dirApplies d rf.dir = true) :
+    ∃ pm : Packet, packetParse fuel [ip, udp, cs] b = .ok pm ∧
+      (Spec.applicable { pm with dir := d } r = true → AllFits pm.fields r.fields →
+        ∃ c, compress { pm with dir := d } r = .ok c ∧ decompressU c r (some [ip, udp, cs]) none = .ok ⟨b.bits, .right⟩) := by
+  obtain ⟨hm, hpp, hun⟩ := unparse_semantic_stack hip udp hu hunp cs hc hsem fuel b hside h1 h2 hs hp1 hp2 hp3 hwf
+  refine ⟨_, hpp, ?_⟩
+  intro happ hfit
+  obtain ⟨c, hc1, hc2⟩ := roundtrip_unparser { (⟨.dw, h1.fields ++ h2.fields ++ hm.fields, ((b.from_ h1.length).from_ h2.length).from_ hs.length, b⟩ : Packet) with dir := d }
+    r hn hdir happ hfit [ip, udp, cs] _ (hun _)
+  refine ⟨c, hc1, ?_⟩
+  rw [hc2]
+  congr 2
+  obtain ⟨t1, l1⟩ := runParser_tiles fuel ip hipm b h1 hp1
+  obtain ⟨t2, l2⟩ := runParser_tiles fuel udp hum _ h2 hp2
+  obtain ⟨t3, l3⟩ := coapParse_tiles fuel _ hs hp3
+  have e : (strip (pairs (h1.fields ++ h2.fields ++ hs.fields) ++ [(Gen.payloadId, ((b.from_ h1.length).from_ h2.length).from_ hs.length)])).flatMap (·.2)
+      = fbits h1.fields ++ fbits h2.fields ++ fbits hs.fields ++ (((b.from_ h1.length).from_ h2.length).from_ hs.length).bits := by
+    simp [strip, pairs, fbits, List.flatMap_map, List.flatMap_append]
+  rw [e, t1, t2, t3]
+  simp only [ABuf.from_, List.append_assoc, List.take_append_drop]
+
+/-- the CoAP parser alone as a one-header stack, options in semantic mode -/
+theorem C19_single_unparse (cs : ParserInst) (hc : cs.cls = "CoAPParser") (hsem : cs.coapMode = .semantic)
+    (fuel : Nat) (b : ABuf) (hside : b.side = .left) (hs : Header)
+    (hp3 : coapParse .syntactic fuel b = .ok hs) (hwf : WfNibbles (pairs hs.fields)) :
+    ∃ hm : Header,
+      packetParse fuel [cs] b = .ok ⟨.dw, hm.fields, b.from_ hs.length, b⟩ ∧
+      ∀ pl : ABuf, packetUnparse [cs] (pairs hm.fields ++ [(Gen.payloadId, pl)]) = .ok (pairs hs.fields ++ [(Gen.payloadId, pl)]) :=
+  unparse_semantic_single cs hc hsem fuel b hside hs hp3 hwf
+
+/-- non-vacuity of the stack theorems: IPv6 / UDP / CoAP GET with Uri-Path "a" and payload "abc" -/
+example :
+    let b : ABuf := ABuf.ofBytes ([0x60, 0, 0, 0, 0, 0x12, 17, 64] ++ List.replicate 15 0 ++ [1] ++ List.replicate 15 0 ++ [2] ++
+      [0x03, 0xe8, 0x16, 0x33, 0x00, 0x12, 0x8e, 0xb3, 0x40, 0x01, 0x12, 0x34, 0xb1, 0x61, 0xff, 0x61, 0x62, 0x63]) 464 .left
+    let ip : ParserInst := ⟨"IPv6Parser", false, .syntactic⟩
+    let udp : ParserInst := ⟨"UDPParser", false, .syntactic⟩
+    (do let h1 ← runParser (fuelFor b) ip b
+        let h2 ← runParser (fuelFor b) udp (b.from_ h1.length)
+        let hs ← coapParse .syntactic (fuelFor b) ((b.from_ h1.length).from_ h2.length)
+        pure (decide (WfNibbles (pairs hs.fields)), h1.length, h2.length, hs.length)) = .ok (true, 320, 64, 56) := by decide +kernel
 
 end Schc
